@@ -251,6 +251,23 @@ def core(skip=()):
            "header": "class Shape { public: Shape(); ~Shape(); int area(); }; namespace tools { int measure(Shape *s); Shape *make(); "
                      "void both(const Shape &a, Shape &b); }",
            "decls": ["int top(int a)"], "language": "c++", "options": {}}
+    # const methods whose only non-input arguments are hidden from the Fortran API (they are still
+    # dummies of the bind(C) interface)
+    yield {"pre": ["- decl: class Tab\n  declarations:\n  - decl: Tab()\n  - decl: int lookup(int key, int *status +intent(out)+hidden) const\n"
+                   "  - decl: int count(int *err +intent(inout)+hidden) const\n  - decl: int plain(int key) const\n"
+                   "  - decl: double total(const double *v +rank(1), int n +implied(size(v))) const\n"],
+           "header": "class Tab { public: Tab(); int lookup(int key, int *status) const; int count(int *err) const; "
+                     "int plain(int key) const; double total(const double *v, int n) const; };",
+           "decls": ["int top(int a)"], "language": "c++", "options": {}}
+    # the same overload set in two namespaces folded into the parent module
+    for fl in ("F_flatten_namespace",):
+        yield {"pre": ["- decl: namespace metric\n  options:\n    %s: true\n  declarations:\n  - decl: double convert(int v)\n"
+                       "  - decl: double convert(double v)\n"
+                       "- decl: namespace imperial\n  options:\n    %s: true\n  declarations:\n  - decl: double convert(int v)\n"
+                       "  - decl: double convert(double v)\n  - decl: void only_here(int a)\n  - decl: void only_here(double a)\n" % (fl, fl)],
+               "header": "namespace metric { double convert(int v); double convert(double v); } namespace imperial { "
+                         "double convert(int v); double convert(double v); void only_here(int a); void only_here(double a); }",
+               "decls": ["int top(int a)"], "language": "c++", "options": {}}
     # older C++ standards (NULL instead of nullptr) with a user header that includes nothing
     for std in ("2003", "2011"):
         yield {"pre": ["- decl: class Box\n  declarations:\n  - decl: Box()\n  - decl: ~Box()\n  - decl: int size() const\n"
@@ -268,7 +285,10 @@ def core(skip=()):
 PYDECLS = ["int f10(const std::vector<int> &v)", "void f11(void *p)", "double f12(const std::vector<double> &v, int n)",
            "void f1(int *v +rank(1))", "void f2(const char *s)", "int *f3() +dimension(3)", "void f4(std::vector<int> &v +intent(out))",
            "void f5(double *a +intent(inout)+rank(1))", "int f6(int a, double b = 1.0)", "void f7(char **names +intent(in))",
-           "std::string f8()", "void f9(int *out +intent(out))"]
+           "std::string f8()", "void f9(int *out +intent(out))",
+           # a result next to intent(out) arrays (storage allocated -- and `goto fail` possible -- before the call)
+           "int f13(int key, double *values +intent(out)+dimension(3))", "double f14(int *out +intent(out)+dimension(4))",
+           "int f15(int n, int *out +intent(out)+dimension(n))", "bool f16(double *a +intent(out)+dimension(2), int *b +intent(out)+dimension(2))"]
 PYOPTS = [{}, {"PY_write_helper_in_util": "true"}, {"PY_array_arg": "list"}, {"PY_array_arg": "list", "PY_write_helper_in_util": "true"},
           {"PY_array_arg": "numpy", "PY_write_helper_in_util": "true"}]
 
